@@ -91,6 +91,18 @@ func z3Seeded(seed int) solverSpec {
 	}}
 }
 
+// z3 5.1.0 in the configuration Boogie/Dafny use (no auto-configuration, no model-based quantifier instantiation:
+// E-matching on the generator's patterns only). Many obligations whose quantified assumptions all carry patterns are
+// decided by it in milliseconds where the default configuration spends its budget in MBQI (getOffer$1: 0.08 s against
+// a 90 s timeout). An `unsat` is a proof in either configuration.
+var z3EM = solverSpec{"z3new-ematch", func(f string, s int) []string {
+	a := []string{"z3-new", fmt.Sprintf("-T:%d", s), "auto_config=false", "smt.mbqi=false"}
+	if solverSeed != 0 {
+		a = append(a, fmt.Sprintf("smt.random_seed=%d", solverSeed), fmt.Sprintf("sat.random_seed=%d", solverSeed))
+	}
+	return append(a, f)
+}}
+
 var solvers = []solverSpec{
 	{"z3new", func(f string, s int) []string { return z3Seeded(solverSeed).argv(f, s) }},
 	{"cvc5", func(f string, s int) []string { return []string{"cvc5", fmt.Sprintf("--tlimit=%d", s*1000), f} }},
@@ -195,13 +207,32 @@ func solve(file string, secs int, all bool) (Result, []Result) {
 	if short > 6 {
 		short = 6
 	}
-	r := runSolver(solvers[0], file, short)
-	if r.Status == "unsat" || r.Status == "sat" {
-		return r, []Result{r}
+	var r Result
+	{
+		ctx1, cancel1 := context.WithCancel(context.Background())
+		ch1 := make(chan Result, 2)
+		go func() { ch1 <- runSolverCtx(ctx1, solvers[0], file, short) }()
+		go func() { ch1 <- runSolverCtx(ctx1, z3EM, file, short) }()
+		var first []Result
+		for i := 0; i < 2; i++ {
+			x := <-ch1
+			first = append(first, x)
+			if x.Status == "unsat" || (x.Status == "sat" && x.Solver == solvers[0].name) {
+				cancel1()
+				return x, first
+			}
+		}
+		cancel1()
+		r = first[0]
+		for _, x := range first {
+			if x.Solver == solvers[0].name {
+				r = x
+			}
+		}
 	}
 	// stage 2: an `unsat` under any seed or solver is a proof, and hard queries are sensitive to the search order:
 	// race the base seed with the full budget, two other seeds and cvc5; the first `unsat` wins
-	specs := []solverSpec{solvers[0], z3Seeded(solverSeed + 1), z3Seeded(solverSeed + 2)}
+	specs := []solverSpec{solvers[0], z3EM, z3Seeded(solverSeed + 1), z3Seeded(solverSeed + 2)}
 	specs = append(specs, solvers[1:]...)
 	ctx, cancel := context.WithCancel(context.Background())
 	defer cancel()
